@@ -11,6 +11,7 @@ var _html5entitiesMap map[string]*HTML5Entity
 
 func buildHTML5Entities() {
 	_html5entitiesOnce.Do(func() {
+		verifPoint("entities.init.begin")
 		entities := make([]HTML5Entity, _html5entitiesLength)
 		_html5entitiesMap = make(map[string]*HTML5Entity, _html5entitiesLength)
 
@@ -29,6 +30,7 @@ func buildHTML5Entities() {
 			cName = tName
 			cCharacters = tCharacters
 		}
+		verifPoint("entities.init.end")
 	})
 }
 
